@@ -813,9 +813,97 @@ func receiversOneOut(r *vproto.Rng, n int) {
 	}
 }
 
+// nonFinite: `pt nf-…` lines — NaN / ±Inf / -0.0 coordinates in the query point and/or in polygon vertices, finite
+// coordinates on the small half-integer grid (float arithmetic on them is exact). Outside the property's quantifier:
+// judged against the XF rendering of the source (GenXL.pointInPolygonal, ProofsNaN.lean), DIFF only.
+func nonFinite(r *vproto.Rng, n int) {
+	nan, pinf, ninf, nz := math.NaN(), math.Inf(1), math.Inf(-1), math.Copysign(0, -1)
+	special := []float64{nan, pinf, ninf, nz}
+	tri := ring{pt(0, 0), pt(4, 0), pt(0, 4)}
+	sq := ring{pt(0, 0), pt(4, 0), pt(4, 4), pt(0, 4)}
+	hole := ring{pt(1, 1), pt(1, 2), pt(2, 2), pt(2, 1)}
+	fan := ring{pt(0, 0), pt(1, 1), pt(-1, 1)}
+	shapes := []geom.Geom{poly(tri), poly(closed(sq)), poly(sq, hole), poly(fan), geom.MultiPolygon{poly(tri), poly(hole)},
+		geom.MultiPolygon{poly(sq), poly(fan), poly(ring{pt(5, 5), pt(6, 5), pt(6, 6)})}, &geom.Bounds{Min: pt(0, 0), Max: pt(4, 4)}}
+	fin := func() float64 { return float64(r.Range(-2, 10)) / 2 }
+	// (a) special query points against finite shapes (incl. -0.0 on the fan of D1)
+	for _, g := range shapes {
+		for _, sx := range special {
+			for _, y := range []float64{0, 0.5, 1, 2, 4, nan, pinf, ninf, nz} {
+				emitPt("nf-query", pt(sx, y), g)
+				emitPt("nf-query", pt(y, sx), g)
+			}
+		}
+	}
+	// (b) one or two special coordinates in the vertices; query points on the grid and special
+	mutate := func(g geom.Geom) geom.Geom {
+		g = scaleGeom(g, 0) // deep copy
+		var rings []geom.Path
+		switch t := g.(type) {
+		case geom.Polygon:
+			rings = t
+		case geom.MultiPolygon:
+			for _, p := range t {
+				rings = append(rings, p...)
+			}
+		case *geom.Bounds:
+			v := special[r.Intn(len(special))]
+			switch r.Intn(4) {
+			case 0:
+				t.Min.X = v
+			case 1:
+				t.Min.Y = v
+			case 2:
+				t.Max.X = v
+			default:
+				t.Max.Y = v
+			}
+			return t
+		}
+		for k := 0; k < 1+r.Intn(2); k++ {
+			rg := rings[r.Intn(len(rings))]
+			i := r.Intn(len(rg))
+			v := special[r.Intn(len(special))]
+			if v == 0 && r.Intn(2) == 0 { // -0.0 only where the coordinate is zero, half of the time
+				if rg[i].X == 0 {
+					rg[i].X = v
+				}
+				if rg[i].Y == 0 {
+					rg[i].Y = v
+				}
+				continue
+			}
+			if r.Intn(2) == 0 {
+				rg[i].X = v
+			} else {
+				rg[i].Y = v
+			}
+		}
+		return g
+	}
+	for i := 0; i < n; i++ {
+		g := mutate(shapes[r.Intn(len(shapes))])
+		for k := 0; k < 6; k++ {
+			q := pt(fin(), fin())
+			switch r.Intn(6) {
+			case 0:
+				q.X = special[r.Intn(len(special))]
+			case 1:
+				q.Y = special[r.Intn(len(special))]
+			}
+			emitPt("nf-vertex", q, g)
+		}
+	}
+}
+
 func gen(seed uint64, tier string) {
 	r := vproto.NewRng(seed)
 	fixedCorpus()
+	if tier == "thorough" {
+		nonFinite(vproto.NewRng(seed+77), 3000)
+	} else {
+		nonFinite(vproto.NewRng(seed+77), 400)
+	}
 	if tier == "thorough" {
 		exhaustive("tri", 3, 2, true)
 		exhaustive("tri3", 3, 3, true)
